@@ -21,6 +21,8 @@ import (
 	"go.nanomsg.org/mangos/v3/vh/c16"
 	"go.nanomsg.org/mangos/v3/vh/kinds"
 	"go.nanomsg.org/mangos/v3/vh/kit"
+	vnet "go.nanomsg.org/mangos/v3/vh/vnet"
+	_ "go.nanomsg.org/mangos/v3/transport/tcp"
 	"go.nanomsg.org/mangos/v3/vh/vt"
 	"go.nanomsg.org/mangos/v3/vz/vexplore"
 	"go.nanomsg.org/mangos/v3/vz/vsched"
@@ -55,6 +57,15 @@ func init() {
 			f := drf[n]
 			out = append(out, &vexplore.Scenario{Name: "drf:" + n, Mode: "sched", Bound: b, Reset: kit.ResetGlobals, Cfg: vsched.Config{Race: true}, Body: f})
 		}
+		for _, k := range kinds.All {
+			k := k
+			if k.CanRecv {
+				out = append(out, &vexplore.Scenario{Name: "recv-waiting-vs-reconfiguration:" + k.Name, Mode: "sched", Bound: b, Reset: kit.ResetGlobals,
+					Cfg: vsched.Config{Race: true}, Body: func() { recvVsReconf(k) }})
+			}
+		}
+		out = append(out, &vexplore.Scenario{Name: "two-threads-on-listener-and-dialer", Mode: "sched", Bound: b, Reset: kit.ResetGlobals,
+			Cfg: vsched.Config{Race: true}, Body: twoThreadsEndpoints})
 		for _, k := range kinds.All {
 			k := k
 			out = append(out, &vexplore.Scenario{Name: "two-threads:" + k.Name, Mode: "sched", Bound: b, Reset: kit.ResetGlobals,
@@ -122,6 +133,139 @@ var ops = []op{
 	{name: "SetPipeEventHook", mutator: true, run: func(w *world) error { w.x.S.SetPipeEventHook(w.hook); return nil }},
 	{name: "peer-connects-and-hangs-up", mutator: true, run: func(w *world) error { p := w.x.EP.Connect(); p.DropNow(); return nil }},
 	{name: "Close", mutator: true, run: func(w *world) error { return w.x.S.Close() }},
+}
+
+// recvVsReconf: a Recv is waiting when another goroutine reconfigures the socket (options, a new
+// subscription or the removal of one, a context, a hook, another listener, a second peer).  Both
+// calls return what their sequential contracts allow: the reconfiguration succeeds or is refused,
+// and the Recv - which nothing here cancels - returns the next message the peer sends.
+var reconf = []struct {
+	name string
+	run  func(x *kinds.Sock) error
+}{
+	{"SetOption(ReadQLen,4)", func(x *kinds.Sock) error { return x.S.SetOption(mangos.OptionReadQLen, 4) }},
+	{"SetOption(WriteQLen,4)", func(x *kinds.Sock) error { return x.S.SetOption(mangos.OptionWriteQLen, 4) }},
+	{"SetOption(TTL,5)", func(x *kinds.Sock) error { return x.S.SetOption(mangos.OptionTTL, 5) }},
+	{"SetOption(Subscribe,zz)", func(x *kinds.Sock) error { return x.S.SetOption(mangos.OptionSubscribe, "zz") }},
+	{"SetOption(Unsubscribe,yy)", func(x *kinds.Sock) error { return x.S.SetOption(mangos.OptionUnsubscribe, "yy") }},
+	{"SetOption(BestEffort,true)", func(x *kinds.Sock) error { return x.S.SetOption(mangos.OptionBestEffort, true) }},
+	{"SetOption(MaxRecvSize,4096)", func(x *kinds.Sock) error { return x.S.SetOption(mangos.OptionMaxRecvSize, 4096) }},
+	{"SetOption(SendDeadline,1s)", func(x *kinds.Sock) error { return x.S.SetOption(mangos.OptionSendDeadline, time.Second) }},
+	{"OpenContext", func(x *kinds.Sock) error { _, err := x.S.OpenContext(); return err }},
+	{"SetPipeEventHook", func(x *kinds.Sock) error { x.S.SetPipeEventHook(func(mangos.PipeEvent, mangos.Pipe) {}); return nil }},
+	{"Listen(second address)", func(x *kinds.Sock) error { return x.S.Listen("vt://c11r-2") }},
+	{"second peer connects", func(x *kinds.Sock) error { x.EP.Connect(); return nil }},
+}
+
+func recvVsReconf(k *kinds.Kind) {
+	x := k.Open("c11r", true, false)
+	x.Quiet()
+	_ = x.S.SetOption(mangos.OptionSubscribe, "yy") // an extra subscription that can be removed again
+	r := reconf[kit.ChooseFree(len(reconf))]
+	x.PrepRecv()
+	rc := kit.Start("Recv", func() (interface{}, error) { return x.Recv() })
+	kit.Quiesce()
+	if rc.Done() {
+		kit.Failf("setup", "%s: Recv returned %q / %s with nothing to receive", k.Name, rc.Val, kit.ErrName(rc.Err))
+	}
+	bc := kit.Start(r.name, func() (interface{}, error) { return nil, r.run(x) })
+	kit.Quiesce()
+	if !bc.Done() {
+		kit.Failf("call-never-returns:"+k.Name+":"+r.name, "%s: %s did not return while a Recv is waiting", k.Name, r.name)
+	}
+	if !allowed[bc.Err] {
+		kit.Failf("call-unexpected-error:"+k.Name+":"+r.name, "%s: %s returned %s", k.Name, r.name, kit.ErrName(bc.Err))
+	}
+	if rc.Done() {
+		kit.Failf("recv-disturbed:"+k.Name+":"+r.name, "%s: the waiting Recv returned %q / %s when %s was called", k.Name, rc.Val, kit.ErrName(rc.Err), r.name)
+	}
+	if !x.Feed("after-reconfiguration") {
+		kit.Failf("setup", "%s: cannot build an inbound message", k.Name)
+	}
+	kit.Quiesce()
+	if !rc.Done() || rc.Err != nil || rc.Val.(string) != "after-reconfiguration" {
+		kit.Failf("recv-stuck-after:"+k.Name+":"+r.name, "%s: a Recv was waiting, %s returned %s, then the peer sent a message: Recv done=%v %s %q", k.Name, r.name, kit.ErrName(bc.Err), rc.Done(), kit.ErrName(rc.Err), rc.Val)
+	}
+	kit.Observe("%s %s %s", k.Name, r.name, kit.ErrName(bc.Err))
+	kit.Must("Close", func() { _ = x.S.Close() })
+}
+
+// twoThreadsEndpoints: one Listener and one Dialer object (over the virtual transport or the real
+// tcp transport on the in-memory network), not yet started; two threads each make one call on
+// them.  Besides the monitors (race, deadlock, panic): of two concurrent Listen calls on one
+// listener, or two Dial calls on one dialer, exactly one takes effect.
+type epOp struct {
+	name string
+	run  func(l mangos.Listener, d mangos.Dialer) error
+}
+
+var epOps = []epOp{
+	{"Listener.Listen", func(l mangos.Listener, d mangos.Dialer) error { return l.Listen() }},
+	{"Listener.Close", func(l mangos.Listener, d mangos.Dialer) error { return l.Close() }},
+	{"Listener.SetOption", func(l mangos.Listener, d mangos.Dialer) error { return l.SetOption(mangos.OptionMaxRecvSize, 4096) }},
+	{"Listener.GetOption", func(l mangos.Listener, d mangos.Dialer) error { _, err := l.GetOption(mangos.OptionMaxRecvSize); return err }},
+	{"Listener.Address", func(l mangos.Listener, d mangos.Dialer) error { _ = l.Address(); return nil }},
+	{"Dialer.Dial", func(l mangos.Listener, d mangos.Dialer) error { return d.Dial() }},
+	{"Dialer.Close", func(l mangos.Listener, d mangos.Dialer) error { return d.Close() }},
+	{"Dialer.SetOption", func(l mangos.Listener, d mangos.Dialer) error { return d.SetOption(mangos.OptionReconnectTime, 50*time.Millisecond) }},
+	{"Dialer.GetOption", func(l mangos.Listener, d mangos.Dialer) error { _, err := d.GetOption(mangos.OptionReconnectTime); return err }},
+	{"Dialer.Address", func(l mangos.Listener, d mangos.Dialer) error { _ = d.Address(); return nil }},
+}
+
+func twoThreadsEndpoints() {
+	scheme := []string{"vt", "tcp"}[kit.ChooseFree(2)]
+	a := kit.ChooseFree(len(epOps))
+	b := a + kit.ChooseFree(len(epOps)-a)
+	s, err := kinds.ByName("xpub").New()
+	if err != nil {
+		kit.Failf("setup", "NewSocket: %v", err)
+	}
+	laddr, daddr := "vt://c11-ep-l", "vt://c11-ep-d"
+	if scheme == "tcp" {
+		laddr, daddr = "tcp://127.0.0.1:4500", "tcp://127.0.0.1:4501"
+		vnet.VGet("127.0.0.1:4501").HarnessListen(true)
+	} else {
+		vt.Get("c11-ep-d").Script(vt.DialOK)
+	}
+	l, err := s.NewListener(laddr, nil)
+	if err != nil {
+		kit.Failf("setup", "NewListener: %s", kit.ErrName(err))
+	}
+	d, err := s.NewDialer(daddr, map[string]interface{}{mangos.OptionDialAsynch: true})
+	if err != nil {
+		kit.Failf("setup", "NewDialer: %s", kit.ErrName(err))
+	}
+	kit.Observe("%s: %s || %s", scheme, epOps[a].name, epOps[b].name)
+	ca := kit.Start("A:"+epOps[a].name, func() (interface{}, error) { return nil, epOps[a].run(l, d) })
+	cb := kit.Start("B:"+epOps[b].name, func() (interface{}, error) { return nil, epOps[b].run(l, d) })
+	kit.Quiesce()
+	kit.Sleep(time.Second)
+	kit.Quiesce()
+	for _, c := range []*kit.Call{ca, cb} {
+		if !c.Done() {
+			kit.Failf("call-never-returns:endpoint:"+c.Name, "%s: %s did not return (program %s || %s)", scheme, c.Name, epOps[a].name, epOps[b].name)
+		}
+		if !allowed[c.Err] {
+			kit.Failf("call-unexpected-error:endpoint:"+c.Name, "%s: %s returned %s", scheme, c.Name, kit.ErrName(c.Err))
+		}
+	}
+	if a == b && (epOps[a].name == "Listener.Listen" || epOps[a].name == "Dialer.Dial") {
+		if (ca.Err == nil) == (cb.Err == nil) {
+			kit.Failf("started-twice:"+epOps[a].name, "%s: two concurrent %s calls on one object returned %s and %s; exactly one may take effect", scheme, epOps[a].name, kit.ErrName(ca.Err), kit.ErrName(cb.Err))
+		}
+	}
+	cc := kit.Start("Close-after", func() (interface{}, error) { return nil, s.Close() })
+	kit.Quiesce()
+	if !cc.Done() {
+		kit.Failf("close-blocks:endpoint", "%s: socket Close blocks after %s || %s", scheme, epOps[a].name, epOps[b].name)
+	}
+	vnet.VResetAll()
+	vt.DropAll()
+	kit.Sleep(time.Hour)
+	kit.Quiesce()
+	if bad := kit.Census(); bad != "" {
+		kit.Failf("leak-after-close:endpoint", "%s after %s || %s and Close: %s", scheme, epOps[a].name, epOps[b].name, bad)
+	}
 }
 
 var allowed = map[error]bool{
